@@ -6,7 +6,7 @@ import json, os, re, subprocess, sys, tempfile, time
 
 prop, tier, seed, target = sys.argv[1], sys.argv[2], int(sys.argv[3]), sys.argv[4]
 ROOT = os.path.dirname(os.path.dirname(os.path.abspath(__file__)))
-BIN = os.path.join(ROOT, ".target", "release", "vcheck")
+BIN = os.path.join(os.environ.get("VCHECK_TARGET") or os.path.join(ROOT, ".target"), "release", "vcheck")
 rep = {"property": prop, "mode": f"memcheck-{target}", "evaluations": 0, "nontrivial": [], "samples": [], "violations": [],
        "counters": {}, "sets": {}, "notes": [], "harness_errors": []}
 t0 = time.time()
